@@ -106,6 +106,62 @@ def run_c08(case, eng, res):
         raise E.HarnessError("no feasible path")
 
 
+def run_c08_login(case, eng, res):
+    """SwitcherLoginResponse built directly from a reply of n free bytes (an earlier reply first when case['before'])"""
+    msgs = loader.load("api.messages")
+    n = case["n"]
+
+    def body(path):
+        reps = []
+        if case.get("before") is not None:
+            b = A.fresh_bytes(path, "lgb", case["before"])
+            reps.append(b)
+            try:
+                msgs.SwitcherLoginResponse(b)
+            except Exception:  # noqa: BLE001
+                pass
+        rep = A.fresh_bytes(path, "lg", n)
+        reps.append(rep)
+        try:
+            return reps, "ok", msgs.SwitcherLoginResponse(rep)
+        except Exception as e:  # noqa: BLE001
+            return reps, "exc", e
+
+    k = 0
+    for path, out, exc in eng.explore(body):
+        if exc is not None:
+            raise exc
+        k += 1
+        path.twin("C08")
+        reps, tag, obj = out
+        rep = reps[-1]
+        if tag != "ok":
+            bad = True
+        else:
+            want = stubs.s_hexlify(SymSeq("bytes", rep.items[8:12])).m_decode()
+            bad = b_not(sym_eq(obj.session_id, want))
+        res["checks"]["login_session_bytes_8_11"] = res["checks"].get("login_session_bytes_8_11", 0) + 1
+        spec = lambda m, oracle: {"kind": "c08_login", "replies": [C.ev_seq(m, r).hex() for r in reps], "oracle": oracle}  # noqa: E731
+        if bad is False:
+            eng.stats.checks += 1
+            eng.stats.checks_discharged += 1
+        else:
+            m = path.refute(bterm(bad) if not isinstance(bad, bool) else z3.BoolVal(bad))
+            if m is not None:
+                res["violations"].append({"what": "C08 login_session_bytes_8_11 (reply of %d bytes)" % n, "case": case,
+                                          "replay": spec(m, "C08login")})
+        mw = path.witness()
+        res["witnesses"].append({"replay": spec(mw, None),
+                                 "expected": {"result": {"session_id": C.conc(mw, obj.session_id)} if tag == "ok" else None,
+                                              "exception": type(obj).__name__ if tag != "ok" else None}})
+    if k == 0:
+        raise E.HarnessError("no feasible path")
+
+
+def run_c08_any(case, eng, res):
+    return run_c08_login(case, eng, res) if case.get("kind") == "login" else run_c08(case, eng, res)
+
+
 def _cmp_result(exp, o):
     if exp["exception"]:
         return o.get("exception") == exp["exception"]
@@ -120,7 +176,11 @@ def main_c08(tier):
     t0 = time.time()
     FL.lemma_amps(65535)
     cases = [{"op": op} for op in KIND_OF]
-    results = H.run_cases("harness.replies", "run_c08", cases, timeout_ms=120000 if tier == "quick" else 600000)
+    # the login reply on its own: every byte free, lengths real devices send (44) and around, with and without an earlier reply
+    lens = [12, 13, 16, 44, 48] if tier == "quick" else list(range(12, 97))
+    cases += [{"kind": "login", "n": n} for n in lens]
+    cases += [{"kind": "login", "n": n, "before": b} for n in ([12, 44] if tier == "quick" else [12, 20, 44, 64]) for b in (12, 44)]
+    results = H.run_cases("harness.replies", "run_c08_any", cases, timeout_ms=120000 if tier == "quick" else 600000)
     nw = H.validate_call_witnesses(results, cmp=_cmp_result)
     H.finish("C08", tier, "model_checking", results, t0,
              rule="state reply = 101/92/80 free bytes + tail of symbolic length (every reply length >= the parsed prefix in one run); "
